@@ -29,6 +29,8 @@ ASSUMPTIONS = [
     "bodies whose 'errors' member is not a list of objects carrying 'message' are outside the precondition and not generated",
 ]
 
+CONTENT_TYPES = ["application/json", "application/graphql-response+json; charset=utf-8", "text/plain; charset=utf-8", None,
+                 "application/json", "text/html", "application/octet-stream"]
 STATUSES = [200, 201, 204, 299, 300, 301, 400, 401, 404, 500, 503]
 DATAS = [{"a": 1}, {}, {"x": None, "y": [1, {"z": "w"}]}, {"n": {"m": {"k": [None, 1.5, "s"]}}}]
 ERR_OBJS = [
@@ -199,7 +201,10 @@ def run_table(case):
     for variant in bc.VARIANTS:
         # the whole path a generated method takes: execute() over a transport answering with the response, then
         # get_data(); nothing but the documented errors may escape from either step
-        client = bc.make(variant, lambda req: httpx.Response(status, content=content, headers={"content-type": "application/json"}))
+        # the outcome is a function of status and body only: the declared media type varies and must not matter
+        ctype = CONTENT_TYPES[int(hashlib.sha256(content + bytes([status % 256])).hexdigest(), 16) % len(CONTENT_TYPES)]
+        hdrs = {"content-type": ctype} if ctype else {}
+        client = bc.make(variant, lambda req: httpx.Response(status, content=content, headers=hdrs))
         value = exc = None
         resp, exc = bc.execute(client, variant, "query Q { a }", "Q", {}, {})
         if exc is None:
